@@ -39,22 +39,19 @@ theorem inc_toNat (u : U128) : u.inc.toNat = (u.toNat + 1) % 2^128 := by
   simp; omega
 
 theorem sub_toNat (u n : U128) : (u.sub n).toNat = (u.toNat + 2^128 - n.toNat) % 2^128 := by
-  unfold sub toNat sub64
   have := u.hi.isLt; have := u.lo.isLt; have := n.hi.isLt; have := n.lo.isLt
-  simp only [BitVec.toNat_sub, BitVec.toNat_ofNat, BitVec.toNat_zero, Nat.add_zero, borrow_toNat]
+  simp only [sub, toNat, sub64, BitVec.toNat_sub, BitVec.toNat_ofNat, borrow_toNat]
   split <;> omega
 
 theorem subW_toNat (u : U128) (n : W) : (u.subW n).toNat = (u.toNat + 2^128 - n.toNat) % 2^128 := by
-  unfold subW toNat sub64
   have := u.hi.isLt; have := u.lo.isLt; have := n.isLt
-  simp only [BitVec.toNat_sub, BitVec.toNat_ofNat, BitVec.toNat_zero, Nat.add_zero, borrow_toNat]
+  simp only [subW, toNat, sub64, BitVec.toNat_sub, BitVec.toNat_ofNat, borrow_toNat]
   split <;> omega
 
 theorem dec_toNat (u : U128) : u.dec.toNat = (u.toNat + 2^128 - 1) % 2^128 := by
-  unfold dec toNat sub64
   have := u.hi.isLt; have := u.lo.isLt
-  simp only [BitVec.toNat_sub, BitVec.toNat_ofNat, BitVec.toNat_zero, Nat.add_zero, borrow_toNat]
-  split <;> simp <;> omega
+  simp only [dec, toNat, sub64, BitVec.toNat_sub, BitVec.toNat_ofNat, borrow_toNat]
+  split <;> omega
 
 theorem mul_toNat (u n : U128) : (u.mul n).toNat = (u.toNat * n.toNat) % 2^128 := by
   unfold mul toNat mul64
@@ -83,4 +80,104 @@ theorem cmp_eq (u n : U128) : u.cmp n = if u.toNat < n.toNat then -1 else if u.t
     simp only [h, if_false]
     split <;> split <;> (try split) <;> omega
 
+theorem w_eq_iff (x y : W) : x = y ↔ x.toNat = y.toNat := BitVec.toNat_inj.symm
+
+macro "pred128" : tactic => `(tactic| (
+  rw [Bool.eq_iff_iff]
+  simp only [Bool.or_eq_true, Bool.and_eq_true, decide_eq_true_eq, w_eq_iff, BitVec.toNat_ofNat]
+  unfold U128.toNat
+  omega))
+
+theorem lessThan_eq (u n : U128) : u.lessThan n = decide (u.toNat < n.toNat) := by
+  have := u.hi.isLt; have := u.lo.isLt; have := n.hi.isLt; have := n.lo.isLt
+  unfold lessThan; pred128
+theorem lessThanOrEqual_eq (u n : U128) : u.lessThanOrEqual n = decide (u.toNat ≤ n.toNat) := by
+  have := u.hi.isLt; have := u.lo.isLt; have := n.hi.isLt; have := n.lo.isLt
+  unfold lessThanOrEqual; pred128
+theorem greaterThan_eq (u n : U128) : u.greaterThan n = decide (u.toNat > n.toNat) := by
+  have := u.hi.isLt; have := u.lo.isLt; have := n.hi.isLt; have := n.lo.isLt
+  unfold greaterThan; pred128
+theorem greaterThanOrEqual_eq (u n : U128) : u.greaterThanOrEqual n = decide (u.toNat ≥ n.toNat) := by
+  have := u.hi.isLt; have := u.lo.isLt; have := n.hi.isLt; have := n.lo.isLt
+  unfold greaterThanOrEqual; pred128
+theorem equal_eq (u n : U128) : u.equal n = decide (u.toNat = n.toNat) := by
+  have := u.hi.isLt; have := u.lo.isLt; have := n.hi.isLt; have := n.lo.isLt
+  unfold equal; pred128
+
+theorem lessThanW_eq (u : U128) (n : W) : u.lessThanW n = decide (u.toNat < n.toNat) := by
+  have := u.hi.isLt; have := u.lo.isLt; have := n.isLt
+  unfold lessThanW; pred128
+theorem lessThanOrEqualW_eq (u : U128) (n : W) : u.lessThanOrEqualW n = decide (u.toNat ≤ n.toNat) := by
+  have := u.hi.isLt; have := u.lo.isLt; have := n.isLt
+  unfold lessThanOrEqualW; pred128
+theorem greaterThanW_eq (u : U128) (n : W) : u.greaterThanW n = decide (u.toNat > n.toNat) := by
+  have := u.hi.isLt; have := u.lo.isLt; have := n.isLt
+  unfold greaterThanW; pred128
+theorem greaterThanOrEqualW_eq (u : U128) (n : W) : u.greaterThanOrEqualW n = decide (u.toNat ≥ n.toNat) := by
+  have := u.hi.isLt; have := u.lo.isLt; have := n.isLt
+  unfold greaterThanOrEqualW; pred128
+theorem equalW_eq (u : U128) (n : W) : u.equalW n = decide (u.toNat = n.toNat) := by
+  have := u.hi.isLt; have := u.lo.isLt; have := n.isLt
+  unfold equalW; pred128
+
+theorem cmpW_eq (u : U128) (n : W) : u.cmpW n = if u.toNat < n.toNat then -1 else if u.toNat = n.toNat then 0 else 1 := by
+  have := u.hi.isLt; have := u.lo.isLt; have := n.isLt
+  unfold cmpW toNat
+  split <;> split <;> (try split) <;> (try split) <;> omega
+
+theorem isZero_eq (u : U128) : u.isZero = decide (u.toNat = 0) := by
+  have := u.hi.isLt; have := u.lo.isLt
+  unfold isZero
+  rw [Bool.eq_iff_iff]
+  simp only [decide_eq_true_eq, BitVec.or_eq_zero_iff, w_eq_iff, BitVec.toNat_ofNat]
+  unfold toNat
+  omega
+
+theorem isUint64_eq (u : U128) : u.isUint64 = decide (u.toNat < 2^64) := by
+  have := u.hi.isLt; have := u.lo.isLt
+  unfold isUint64; pred128
+theorem and_mask32 (x : W) : (x &&& mask32).toNat = x.toNat % 2^32 := by
+  have : mask32.toNat = 2^32 - 1 := by decide
+  rw [BitVec.toNat_and, this, Nat.and_two_pow_sub_one_eq_mod]
+theorem shr32 (x : W) : (x >>> 32).toNat = x.toNat / 2^32 := by
+  rw [BitVec.toNat_ushiftRight, Nat.shiftRight_eq_div_pow]
+
+/-- the schoolbook high word: arithmetic core of `Mul64` -/
+theorem mulhi_core (p00 p10 p01 p11 : Nat)
+    (h00 : p00 ≤ (2^32-1)*(2^32-1)) (h10 : p10 ≤ (2^32-1)*(2^32-1)) (h01 : p01 ≤ (2^32-1)*(2^32-1)) :
+    let t := p10 + p00 / 2^32
+    p11 + t / 2^32 + (t % 2^32 + p01) / 2^32 = (p11 * 2^64 + (p10 + p01) * 2^32 + p00) / 2^64 := by
+  intro t
+  omega
+
+theorem mulW_toNat (u : U128) (n : W) : (u.mulW n).toNat = (u.toNat * n.toNat) % 2^128 := by
+  have hh := u.hi.isLt; have hl := u.lo.isLt; have hn := n.isLt
+  simp only [mulW, toNat, BitVec.toNat_add, BitVec.toNat_mul, and_mask32, shr32]
+  generalize hx0 : u.lo.toNat % 2^32 = x0
+  generalize hx1 : u.lo.toNat / 2^32 = x1
+  generalize hy0 : n.toNat % 2^32 = y0
+  generalize hy1 : n.toNat / 2^32 = y1
+  have bx0 : x0 ≤ 2^32 - 1 := by omega
+  have bx1 : x1 ≤ 2^32 - 1 := by omega
+  have by0 : y0 ≤ 2^32 - 1 := by omega
+  have by1 : y1 ≤ 2^32 - 1 := by omega
+  have h00 : x0 * y0 ≤ (2^32-1)*(2^32-1) := Nat.mul_le_mul bx0 by0
+  have h10 : x1 * y0 ≤ (2^32-1)*(2^32-1) := Nat.mul_le_mul bx1 by0
+  have h01 : x0 * y1 ≤ (2^32-1)*(2^32-1) := Nat.mul_le_mul bx0 by1
+  have h11 : x1 * y1 ≤ (2^32-1)*(2^32-1) := Nat.mul_le_mul bx1 by1
+  have core := mulhi_core (x0*y0) (x1*y0) (x0*y1) (x1*y1) h00 h10 h01
+  have ea : u.lo.toNat = x1 * 2^32 + x0 := by omega
+  have en : n.toNat = y1 * 2^32 + y0 := by omega
+  have prod : u.lo.toNat * n.toNat = (x1*y1) * 2^64 + (x1*y0 + x0*y1) * 2^32 + x0*y0 := by
+    rw [ea, en]; ring
+  have e : (u.hi.toNat * 2^64 + u.lo.toNat) * n.toNat = (u.hi.toNat * n.toNat) * 2^64 + u.lo.toNat * n.toNat := by ring
+  rw [e]
+  generalize u.hi.toNat * n.toNat = hn' at *
+  generalize x0 * y0 = p00 at *
+  generalize x1 * y0 = p10 at *
+  generalize x0 * y1 = p01 at *
+  generalize x1 * y1 = p11 at *
+  generalize u.lo.toNat * n.toNat = P at *
+  simp only at core
+  omega
 end U128
